@@ -146,6 +146,20 @@ def check_gdist1g(prog, rep, c):
         rep.unrec("R2-sequential", construct, "no (values, first index, counts) = numpy.unique(...) found")
         return
     u, S, C = names
+    for nm in (S, C):
+        others = [v for v in defs.get(nm, [])]
+        for n in walk_no_nested(f.node):
+            if isinstance(n, ast.Assign) and n is not node:
+                tg = [e.id for t in n.targets for e in ast.walk(t) if isinstance(e, ast.Name) and isinstance(e.ctx, ast.Store)]
+                if nm in tg:
+                    reads_self = any(isinstance(x, ast.Attribute) and isinstance(x.value, ast.Name) and x.value.id == "self" for x in ast.walk(n.value))
+                    if reads_self:
+                        rep.violate("R2-sequential", construct, "on some path the chromosome run boundaries (%s) are taken from the map's own cached grouping (%s), not computed "
+                                    "from the chromosome labels passed in: +inf lands at the map's chromosome offsets" % (nm, dump(n.value)[:50]), where(f, n),
+                                    "numpy.unique(%s, return_index=True, return_counts=True)" % chrp, dump(n.value)[:50])
+                    else:
+                        rep.unrec("R2-sequential", construct, "run boundary %s has a second definition: %s" % (nm, dump(n.value)[:40]))
+                    return
     if root(src)[0] != chrp:
         rep.violate("R2-sequential", construct, "chromosome runs are computed from %s, not from the chromosome labels" % dump(src), where(f, node), chrp, dump(src))
         return
@@ -368,8 +382,30 @@ def check_interp(prog, rep, c):
         if key != cg:
             rep.violate("R4-interp", g.qualname, "spline is looked up by %s, not by the query's chromosome %s" % (key, cg), where(g, t), cg, str(key))
             good = False
-        if not (isinstance(v, ast.Call) and len(v.args) == 1 and dump(v.args[0]) == pp):
-            rep.violate("R4-interp", g.qualname, "spline is evaluated at %s, not at the query's physical position %s" % (dump(v)[:40], pp), where(g, wb[0]), pp, dump(v)[:40])
+        # the lookup must happen for every query (top level of the try body): a conditional / cached lookup lets a stale model answer
+        lookups = [n for n in t.body if any(isinstance(x, ast.Subscript) and field_of(x.value) == "spline" for x in ast.walk(n))]
+        if not lookups:
+            rep.unrec("R4-interp", g.qualname, "no spline lookup in the try body")
+            good = False
+        elif isinstance(lookups[0], ast.If):
+            # cached lookup `if cg != prev: ...`: wrong iff the cache key is updated BEFORE the lookup that may raise KeyError
+            iff = lookups[0]
+            cmpnames = {n.id for n in ast.walk(iff.test) if isinstance(n, ast.Name)} - {cg}
+            stale = False
+            for st_ in iff.body:
+                if any(isinstance(x, ast.Subscript) and field_of(x.value) == "spline" for x in ast.walk(st_)):
+                    break
+                if isinstance(st_, ast.Assign) and any(isinstance(t_, ast.Name) and t_.id in cmpnames for t_ in st_.targets):
+                    stale = True
+            if stale:
+                rep.violate("R4-interp", g.qualname, "the spline lookup is cached per chromosome and the cache key is updated before the lookup that can raise KeyError: "
+                            "for the following markers of an absent chromosome the previous chromosome's model answers instead of NaN", where(g, iff),
+                            "model = self._spline[%s] for every query" % cg, "stale cached model")
+            else:
+                rep.unrec("R4-interp", g.qualname, "cached spline lookup not modelled")
+            good = False
+        elif isinstance(lookups[0], (ast.For, ast.While)):
+            rep.unrec("R4-interp", g.qualname, "spline lookup inside a nested loop")
             good = False
     hk = [h for h in t.handlers if h.type is not None and dump(h.type) == "KeyError"]
     if len(hk) != 1:
@@ -457,6 +493,42 @@ def check_order(prog, rep, c):
             rep.ok("R5-order", g.qualname, "one index (%s) applied to chromosome, physical and genetic positions; grouping %s" % (idxp, "recomputed" if regroup else "reset"))
 
 
+def check_gdist_p(prog, rep, c):
+    """gdist1p / gdist2p: interpolate the UNSLICED arrays, then delegate to gdist1g / gdist2g with the window arguments forwarded once"""
+    for nm, tgt in (("gdist1p", "gdist1g"), ("gdist2p", "gdist2g")):
+        f = prog.lookup_method(c, nm)
+        if f is None:
+            rep.unrec("R2-sequential", c.qualname, "%s vanished" % nm)
+            continue
+        rep.saw(f)
+        ps = f.params()[1:]
+        chrp, phyp, win = ps[0], ps[1], ps[2:]
+        calls = [n for n in walk_no_nested(f.node) if isinstance(n, ast.Call) and dump(n.func) == "self." + tgt]
+        interp = [n for n in walk_no_nested(f.node) if isinstance(n, ast.Call) and dump(n.func) == "self.interp_genpos"]
+        if len(calls) != 1 or len(interp) != 1:
+            rep.unrec("R2-sequential", f.qualname, "not (interp_genpos, then %s)" % tgt)
+            continue
+        good = True
+        ia = [dump(a) for a in interp[0].args] + [dump(v) for v in kwargs_of(interp[0])[0].values()]
+        rebound = {n.targets[0].id for n in walk_no_nested(f.node) if isinstance(n, ast.Assign) and isinstance(n.targets[0], ast.Name) and n.targets[0].id in (chrp, phyp)}
+        ca = [dump(a) for a in calls[0].args]
+        forwards_window = ca[2:] == win or all(w in ca for w in win)
+        sliced = [a for a in ia if "[" in a] or rebound
+        if ia[:2] != [chrp, phyp] or rebound:
+            if sliced and forwards_window:
+                rep.violate("R2-sequential", f.qualname, "%s windows its inputs (%s) before interpolating AND forwards the window (%s) to %s: the window is applied twice"
+                            % (nm, ", ".join(sorted(rebound)) or ", ".join(ia), ", ".join(win), tgt), where(f, calls[0]), "window applied once", "twice")
+            else:
+                rep.unrec("R2-sequential", f.qualname, "interp_genpos arguments %s not modelled" % ia)
+            good = False
+        if good and (ca[0] != chrp or not forwards_window):
+            rep.violate("R2-sequential", f.qualname, "%s does not forward (%s, positions, %s) to %s: %s" % (nm, chrp, ", ".join(win), tgt, ca), where(f, calls[0]),
+                        "%s(%s, <interpolated>, %s)" % (tgt, chrp, ", ".join(win)), ", ".join(ca))
+            good = False
+        if good:
+            rep.ok("R2-sequential", f.qualname, "%s = %s(%s, interp_genpos(%s, %s), %s): window applied once" % (nm, tgt, chrp, chrp, phyp, ", ".join(win)))
+
+
 def check_interp_xoprob(prog, rep):
     c = prog.get_class("DenseGeneticMappableMatrix", "pybrops.popgen.gmap.DenseGeneticMappableMatrix")
     f = prog.own_method(c, "interp_xoprob")
@@ -511,12 +583,13 @@ def run(prog, rep, tier):
                        "template verification of sequential / pairwise distance, interpolation, ordering and crossover-probability assignment in both "
                        "genetic-map classes.")
     rep.not_decided = ["monotonicity / linearity of scipy's interp1d (trusted)", "numerical additivity of distances"]
-    for r, n in (("R1-formulas", 14), ("R2-sequential", 2), ("R3-pairwise", 2), ("R4-interp", 4), ("R5-order", 6), ("R6-xoprob", 1)):
+    for r, n in (("R1-formulas", 14), ("R2-sequential", 6), ("R3-pairwise", 2), ("R4-interp", 4), ("R5-order", 6), ("R6-xoprob", 1)):
         rep.floor(r, n)
     check_mapfns(prog, rep)
     for mod, cname in GMAPS:
         c = prog.get_class(cname, mod)
         check_gdist1g(prog, rep, c)
+        check_gdist_p(prog, rep, c)
         check_gdist2g(prog, rep, c)
         check_interp(prog, rep, c)
         check_order(prog, rep, c)
